@@ -151,6 +151,10 @@ class Report:
             print("   %-34s %4d instance(s), %4d discharged" % (r, c[0], c[1]))
         for v, f in knownhit:
             print("KNOWN-FINDING: property=%s %s" % (self.pid, f.get("what", v["msg"])))
+        if os.path.isdir(replay_dir):
+            for f in os.listdir(replay_dir):
+                if f.startswith(self.pid + "_"):
+                    os.remove(os.path.join(replay_dir, f))
         if new:
             os.makedirs(replay_dir, exist_ok=True)
             for i, v in enumerate(new):
